@@ -31,12 +31,14 @@ MANIFEST = {
              "header rules over the full ancestor slice), the public NewHeadersImport(...).Import, faults injected by "
              "wrapping the store interfaces handed to the importer. After the import, a second import, a probe append and "
              "(after a crash) reopening, TLC evaluates the clauses of ImportProps.tla on what the stores answer.",
-        note="Bounded (quick: start<=2, len<=3, batch<=3, store heights<=2, one deviation at a time; thorough: start<=3, "
-             "len<=5, batch<=4, store heights<=4, two deviations). Trusts TLC, the projection of the read API to ids, the "
-             "ground-truth oracle for header validity. The divergence-region code (one store ahead and the file extends "
-             "past the shorter one) is unreachable with real headerfs stores (the continuity check compares the connecting "
-             "header with the block TIP) and is therefore modelled but never replayed. Crash points are at call "
-             "granularity; crashes inside a store call are the HeaderStore family's C08.",
+        note="Bounded (quick: start<=2, len<=4, batch<=3, store heights<=3, one deviation at a time; thorough: start<=4, "
+             "len<=6, batch<=4, store heights<=5, two deviations). Trusts TLC, the projection of the read API to ids, the "
+             "ground-truth oracle for header validity (btcd's rules over the full ancestor slice, regtest-like chain without "
+             "retargeting). The divergence-region code (one store ahead and the file extends past the shorter one) is "
+             "unreachable with real headerfs stores (the continuity check compares the connecting header with the block TIP) "
+             "and is therefore modelled but never replayed. Also carries the import crash points of C08 as clauses "
+             "ImportCrash* (crash before / after / inside every store call of the import: torn file write, between file and "
+             "index step), reported under C14. Store read errors, the HTTP source and ctx cancellation are not covered.",
         design="4 C14", technique="TLA+ spec + TLC exhaustive + spec-to-code replay of every path + TLC-judged observed traces"),
 }
 
@@ -53,7 +55,7 @@ CODE_VERSION = json.load(open(os.path.join(SPEC, "code_version.json")))
 CONFIGS = {
     ("C14", "quick"): dict(MaxStart=2, MaxLen=4, MaxBatch=3, MaxStoreH=3, MaxH=5, MaxAnom=1, MaxFaults=2,
                            WithCrash=True),
-    ("C14", "thorough"): dict(MaxStart=3, MaxLen=5, MaxBatch=4, MaxStoreH=4, MaxH=7, MaxAnom=2, MaxFaults=2,
+    ("C14", "thorough"): dict(MaxStart=4, MaxLen=6, MaxBatch=4, MaxStoreH=5, MaxH=8, MaxAnom=2, MaxFaults=2,
                               WithCrash=True),
 }
 
